@@ -59,6 +59,25 @@ static std::string oneshot(size_t len, size_t outlen, size_t keylen, int pat) {
 	return "";
 }
 
+// long messages: one-shot and in two/three chunks whose sizes put a LARGE remainder into one update() call (a bulk path for many blocks at once is only
+// entered there; seeded change agent8_C02: 8-block bulk loop swallows the last block when the remainder is an exact multiple of 1024)
+static std::string long_case(size_t len, size_t first, size_t outlen, size_t keylen) {
+	auto M = message(len, (int)(len % 3)); auto key = keybytes(keylen); uint8_t ref[64], got[64];
+	spec::blake2b_ref(ref, outlen, M.data(), len, key.empty() ? nullptr : key.data(), key.size());
+	if (blake2b(got, outlen, M.data(), len, key.empty() ? nullptr : key.data(), key.size()) != 0) return "blake2b() failed";
+	if (memcmp(got, ref, outlen)) return "blake2b(len " + std::to_string(len) + ", outlen " + std::to_string(outlen) + ", keylen " + std::to_string(keylen) + ") differs from RFC 7693";
+	if (first <= len) { blake2b_state S; if (keylen) blake2b_init_key(&S, outlen, key.data(), keylen); else blake2b_init(&S, outlen);
+		blake2b_update(&S, M.data(), first); blake2b_update(&S, M.data() + first, len - first); blake2b_final(&S, got, outlen);
+		if (memcmp(got, ref, outlen)) return "update(" + std::to_string(first) + ") + update(" + std::to_string(len - first) + ") differs from RFC 7693 (outlen " + std::to_string(outlen) + ", keylen " + std::to_string(keylen) + ")"; }
+	return "";
+}
+static std::vector<size_t> long_lengths(bool th) {
+	std::vector<size_t> v; for (size_t l = 0; l <= (th ? 16640u : 8448u); ++l) v.push_back(l);                     // every length up to 66 (thorough 130) blocks
+	for (int k = 14; k <= 21; ++k) for (long d : { -129L, -128L, -1L, 0L, 1L, 127L, 128L, 129L }) v.push_back((size_t)((1L << k) + d));
+	for (size_t k = 1; k <= 1024; k *= 2) { v.push_back(128 + 1024 * k); v.push_back(1024 * k); v.push_back(256 + 1024 * k); }
+	return v;
+}
+
 static std::string rejections() {
 	uint8_t out[80]; uint8_t in[8] = { 1, 2, 3 }; uint8_t key[80] = { 9 };
 	auto clean = [&]() { for (int i = 0; i < 80; ++i) if (out[i] != 0xAA) return false; return true; };
@@ -135,6 +154,7 @@ int main(int argc, char** argv) {
 		if (k == "graph") d = graph((size_t)r.at("Lmax").num(), (size_t)r.at("outlen").num(), (size_t)r.at("keylen").num(), (int)r.at("pat").num(), R, nullptr);
 		else if (k == "oneshot") d = oneshot((size_t)r.at("len").num(), (size_t)r.at("outlen").num(), (size_t)r.at("keylen").num(), (int)r.at("pat").num());
 		else if (k == "reject") d = rejections();
+		else if (k == "long") d = long_case((size_t)r.at("len").num(), (size_t)r.at("first").num(), (size_t)r.at("outlen").num(), (size_t)r.at("keylen").num());
 		else if (k == "huge1") d = huge_case((int)r.at("mode").num(), r.at("with_model").b);
 		else if (k == "counter") d = counter_case((uint64_t)r.at("t0").i, (uint64_t)r.at("t1").i, (size_t)r.at("more").num(), (size_t)r.at("outlen").num());
 		else if (k == "commit") { size_t n = (size_t)r.at("len").num(); auto in = message(n, 1); uint8_t h[32], a[32], b[32]; for (int i = 0; i < 32; ++i) h[i] = (uint8_t)(i * (int)r.at("h").num() + 1); randomx_calculate_commitment(in.data(), n, h, a); spec::commitment(in.data(), n, h, b); d = memcmp(a, b, 32) ? "commitment differs" : ""; }
@@ -155,6 +175,10 @@ int main(int argc, char** argv) {
 		if (shard < NG + NO) {   // one-shot: all lengths x all outlen x key lengths
 			int s = shard - NG; size_t maxlen = th ? 1100 : 520;
 			static const size_t kl[] = { 0, 1, 32, 63, 64 };
+			{ auto LL = long_lengths(th); static const size_t firsts[] = { 0, 1, 77, 127, 128, 129 };
+			  for (size_t i = (size_t)s; i < LL.size(); i += NO) { size_t len = LL[i]; size_t first = firsts[i % 6]; size_t ol = (i % 5 == 0) ? 32 : 64, kl2 = (i % 7 == 0) ? 32 : 0;
+				std::string d = long_case(len, first, ol, kl2); R.n["long_message_cases"]++;
+				if (!d.empty()) { viol("c11:long", d, vf::Json::obj().set("kind", "long").set("len", (unsigned long long)len).set("first", (unsigned long long)first).set("outlen", (unsigned long long)ol).set("keylen", (unsigned long long)kl2)); if (R.viol.size() >= 3) return R; } } }
 			for (size_t len = s; len <= maxlen; len += NO) for (size_t outlen = 1; outlen <= 64; ++outlen) for (size_t k : kl) {
 				if (!th && k != 0 && (outlen % 8) != (len % 8)) continue;
 				std::string d = oneshot(len, outlen, k, (int)(len % 3)); R.n["oneshot_cases"]++;
@@ -200,7 +224,7 @@ int main(int argc, char** argv) {
 		.set("traces_validated_against_impl", (unsigned long long)total.n["transitions"])
 		.set("evaluations", (unsigned long long)(total.n["transitions"] + total.n["oneshot_cases"] + total.n["counter_cases"] + total.n["commitment_cases"]))
 		.set("distinct_nontrivial", (unsigned long long)total.n["states"]).set("exhaustive", !total.incomplete)
-		.set("rule", "streaming state machine explored on the implementation itself: states = bytes consumed (0..Lmax) per (outlen,keylen,message) combination; transitions = update of every chunk length k from every state n (n+k<=Lmax) checked against the canonical state of n+k, and final() from every state checked against the model's digest of the prefix; plus one-shot blake2b over all lengths x outlen 1..64 x key lengths {0,1,32,63,64}, parameter rejection with guarded output buffers, injected 128-bit counters around 2^32 and 2^64, commitment for all input lengths 0..300 x 4 hashes; messages of 2^32+4873 bytes handed over in ONE call (one-shot, update after a partial block, keyed, commitment) == the same bytes streamed in 1 MiB chunks (== model in thorough); thorough adds a real 4 GiB + 129 byte streamed message");
+		.set("rule", "streaming state machine explored on the implementation itself: states = bytes consumed (0..Lmax) per (outlen,keylen,message) combination; transitions = update of every chunk length k from every state n (n+k<=Lmax) checked against the canonical state of n+k, and final() from every state checked against the model's digest of the prefix; plus every message length 0..8448 (thorough 16640) and lengths around 2^14..2^21 and 128+1024k, one-shot and as update(a)+update(rest) for a in {0,1,77,127,128,129} (a large remainder in one update call); plus one-shot blake2b over all lengths x outlen 1..64 x key lengths {0,1,32,63,64}, parameter rejection with guarded output buffers, injected 128-bit counters around 2^32 and 2^64, commitment for all input lengths 0..300 x 4 hashes; messages of 2^32+4873 bytes handed over in ONE call (one-shot, update after a partial block, keyed, commitment) == the same bytes streamed in 1 MiB chunks (== model in thorough); thorough adds a real 4 GiB + 129 byte streamed message");
 	ev.assumptions = { "specmodel Blake2b (RFC 7693; cross-checked against python hashlib on 1000 cases at setup)" };
 	return vf::finish(args, total, ev);
 }
